@@ -1,6 +1,7 @@
 package c16
 
 import (
+	"flag"
 	"fmt"
 	"sync"
 	"sync/atomic"
@@ -193,6 +194,28 @@ func probeLatency(n int) time.Duration {
 		<-ch
 		if d := time.Since(t1); d > worst {
 			worst = d
+		}
+	}
+	return worst
+}
+
+// recentLatency records a probe result and returns the worst of the last few
+// probes, so that slack follows bursty load instead of one lucky probe.
+var (
+	latMu   sync.Mutex
+	latRing [8]time.Duration
+	latNext int
+)
+
+func recentLatency(lat time.Duration) time.Duration {
+	latMu.Lock()
+	defer latMu.Unlock()
+	latRing[latNext%len(latRing)] = lat
+	latNext++
+	worst := time.Duration(0)
+	for _, l := range latRing {
+		if l > worst {
+			worst = l
 		}
 	}
 	return worst
@@ -437,8 +460,7 @@ func runWaitOnce(c WaitCase, slack time.Duration) outcome {
 // runWait decides one case: msg != "" is a violation, inconclusive != "" is an
 // undecided case.
 func runWait(c WaitCase) (msg, inconclusive string, first outcome) {
-	lat := probeLatency(3)
-	slack := slackFor(lat)
+	slack := slackFor(recentLatency(probeLatency(3)))
 	if slack > maxSlack {
 		return "", "scheduler latency too high for a timing case", outcome{kind: "infra"}
 	}
@@ -454,7 +476,7 @@ func runWait(c WaitCase) (msg, inconclusive string, first outcome) {
 		// a timing breach is a violation only when it reproduces in fresh
 		// runs and the machine is not starving the test
 		for i := 0; i < 2; i++ {
-			if slackFor(probeLatency(3)) > slack {
+			if slackFor(recentLatency(probeLatency(8))) > slack {
 				return "", "timing breach while scheduler latency was rising", o
 			}
 			if o2 := runWaitOnce(c, slack); !o2.timing() {
@@ -475,8 +497,8 @@ func runWait(c WaitCase) (msg, inconclusive string, first outcome) {
 var timeouts = []uint64{0, 1, 5, 20, 100, 5000}
 var otherTimeouts = []uint64{0, 1, 5, 20, 100}
 
-func genWait(t *rapid.T) WaitCase {
-	var c WaitCase
+func genWait(t *rapid.T, lockerKind string) WaitCase {
+	c := WaitCase{Locker: lockerKind}
 	if rapid.IntRange(0, 4).Draw(t, "tkind") == 0 {
 		c.TimeoutMs = uint64(rapid.IntRange(0, 120).Draw(t, "tms"))
 	} else {
@@ -523,7 +545,6 @@ func genWait(t *rapid.T) WaitCase {
 		}
 		c.Others = append(c.Others, o)
 	}
-	c.Locker = rapid.SampledFrom([]string{"tracked", "tracked", "plain"}).Draw(t, "locker")
 	return c
 }
 
@@ -539,7 +560,7 @@ func waitNonTrivial(c WaitCase) bool {
 	return diff <= 2000 || (c.TimeoutMs >= 20 && c.DelayUs <= tus/4)
 }
 
-func checkWait(t ev.TB, c WaitCase) {
+func checkWait(t ev.TB, test string, c WaitCase) {
 	ev.Eval()
 	tus := int64(c.TimeoutMs) * 1000
 	switch {
@@ -576,12 +597,36 @@ func checkWait(t ev.TB, c WaitCase) {
 		ev.Inconclusive(inc)
 	}
 	if msg != "" {
-		ev.Failf(t, "TestWaitTimeout", c, "%s", msg)
+		// write the shard file at once: a broken WaitTimeout can go on to
+		// unlock an unlocked sync.Mutex, which kills the process
+		ev.Record(test, c, "%s", msg)
+		ev.Flush()
+		ev.Failf(t, test, c, "%s", msg)
 	}
 }
 
+// shortShrink caps rapid's shrinking time for the real-time cases: every
+// attempt on a failing case costs three watchdog periods, and the cases are
+// small to begin with.
+func shortShrink() {
+	if f := flag.Lookup("rapid.shrinktime"); f != nil {
+		_ = f.Value.Set("5s")
+	}
+}
+
+// TestWaitTimeout runs the cases on the ownership-tracking lock (which
+// survives a misbehaving implementation); TestWaitTimeoutPlain runs after it
+// with a plain *sync.Mutex, the lock type callers actually use.
 func TestWaitTimeout(t *testing.T) {
+	shortShrink()
 	lat := probeLatency(20)
+	recentLatency(lat)
 	ev.Note("scheduler-latency probe at start: %v (slack %v)", lat, slackFor(lat))
-	rapid.Check(t, func(t *rapid.T) { checkWait(t, genWait(t)) })
+	defer ev.Flush()
+	rapid.Check(t, func(t *rapid.T) { checkWait(t, "TestWaitTimeout", genWait(t, "tracked")) })
+}
+
+func TestWaitTimeoutPlain(t *testing.T) {
+	shortShrink()
+	rapid.Check(t, func(t *rapid.T) { checkWait(t, "TestWaitTimeoutPlain", genWait(t, "plain")) })
 }
